@@ -74,8 +74,8 @@ def main() -> int:
     rep = Report(PROP)
     t = tier()
     sd = seed()
-    n_in = 150 if t == "quick" else 2500
-    n_out = 60 if t == "quick" else 800
+    n_in = 330 if t == "quick" else 2500
+    n_out = 120 if t == "quick" else 800
     for case, st, res in run_cases(run_inrange, [(i, sd, (1, 2, 3)[i % 3]) for i in range(n_in)]):
         if st != "ok":
             rep.inconclusive_because(f"case {case} failed: {res[-300:]}")
